@@ -61,9 +61,9 @@ type Thread struct {
 	pending   Op
 	finished  bool
 	yielding  bool
-	blockedBy []bool // fair scheduling: ids that must be scheduled (or become disabled) before this one
-	own       int64  // scheduling decisions that chose this thread
-	local     uint64 // hash of (site, shared dump) at the points where this thread was resumed in its current operation
+	blockedBy []bool     // fair scheduling: ids that must be scheduled (or become disabled) before this one
+	own       int64      // scheduling decisions that chose this thread
+	local     uint64     // hash of (site, shared dump) at the points where this thread was resumed in its current operation
 	bases     []siteSeen // (site, local hash on first arrival) in arrival order: a revisit is a loop back-edge
 	cyc       [3]uint64  // the (at most 3) distinct sites of the thread's current tight loop
 	cycN      int
@@ -92,11 +92,11 @@ type Point struct {
 type Dev struct{ Idx, Alt, Thread, NEn int }
 
 type Config struct {
-	Devs     []Dev              // the schedule: default choice 0 everywhere except at these points
+	Devs []Dev // the schedule: default choice 0 everywhere except at these points
 	// Policy orders the alternatives at a point: the arriving thread always comes first when it is still
 	// enabled; the others follow in ascending (0) or descending (1) thread id, i.e. at a forced switch
 	// the default is the oldest (0) or the youngest (1) runnable thread.
-	Policy int
+	Policy   int
 	Choose   func(p *Point) int // optional callback instead of Devs (must not be used in race builds)
 	MaxSteps int64              // horizon; 0 = 1e6
 	Monitor  func()             // called at every scheduling point with every controlled thread parked
@@ -107,27 +107,28 @@ type Config struct {
 }
 
 type Execution struct {
-	cfg      Config
-	devK     int
-	threads  []*Thread
-	cur      *Thread
-	steps    int64
-	Trace    []Point
-	Steps    int64
-	done     gate
-	finished bool
-	Deadlock bool // no enabled thread, some unfinished
-	Livelock bool // only spinning threads remain and the state they spin on does not change
-	spinCount   int      // yields since the last sign of progress
-	spinDump    uint64   // shared-state dump at the last sign of progress
-	spinThreads int      // finished*100000 + created threads at the last sign of progress
-	spinning    []bool   // threads that have yielded since the last sign of progress
-	Horizon  bool // MaxSteps reached (harness error, not a verdict)
-	Diverged string
-	Panics   []string
-	Blocked  []string // description of the threads that were blocked at a deadlock
-	NThreads int
-	Yields   int64
+	cfg           Config
+	devK          int
+	threads       []*Thread
+	cur           *Thread
+	steps         int64
+	Trace         []Point
+	Steps         int64
+	done          gate
+	finished      bool
+	Deadlock      bool   // no enabled thread, some unfinished
+	Livelock      bool   // only spinning threads remain and the state they spin on does not change
+	sinceProgress int    // scheduling points since a thread last arrived outside its current tight loop, ended or started
+	spinCount     int    // yields since the last sign of progress
+	spinDump      uint64 // shared-state dump at the last sign of progress
+	spinThreads   int    // finished*100000 + created threads at the last sign of progress
+	spinning      []bool // threads that have yielded since the last sign of progress
+	Horizon       bool   // MaxSteps reached (harness error, not a verdict)
+	Diverged      string
+	Panics        []string
+	Blocked       []string // description of the threads that were blocked at a deadlock
+	NThreads      int
+	Yields        int64
 }
 
 var active *Execution
@@ -174,7 +175,8 @@ func site(skip int) uint64 {
 	return h
 }
 
-const spinRunLimit = 20000
+const spinRunLimit = 5000    // rounds of a <=3-site loop before a thread counts as a spinner
+const spinQuietLimit = 60000 // points without any thread leaving its loop, ending or starting
 
 const siteTabSize = 1 << 16
 
@@ -247,6 +249,7 @@ func resetHooks() {
 
 func (e *Execution) newThread() *Thread {
 	t := &Thread{ID: len(e.threads)}
+	e.sinceProgress = 0
 	t.gate.init()
 	t.pending = Op{Kind: OpStart}
 	e.threads = append(e.threads, t)
@@ -263,6 +266,7 @@ func (e *Execution) body(t *Thread, fn func()) {
 			e.Panics = append(e.Panics, fmt.Sprintf("thread %d: %v\n%s", t.ID, r, buf))
 		}
 		t.finished = true
+		e.sinceProgress = 0
 		HBRelease(unsafe.Pointer(&execBarrier))
 		t.pending = Op{Kind: OpExit}
 		e.schedule(t, true)
@@ -372,7 +376,9 @@ func (e *Execution) point(t *Thread, op Op, skip int) {
 		t.cycRun++
 	default:
 		t.cyc[0], t.cycN, t.cycRun = op.Site, 1, 1
+		e.sinceProgress = 0 // a thread left its loop: something is happening
 	}
+	e.sinceProgress++
 	if !t.yielding {
 		// arriving somewhere new, or after the shared state changed: progress
 		e.spinCount = 0
@@ -395,7 +401,14 @@ func (th *Thread) enabled() bool {
 }
 
 func (e *Execution) describe(th *Thread) string {
-	return fmt.Sprintf("t%d(%s) blocked at %v on %T", th.ID, th.Name, th.pending.Kind, th.pending.Obj)
+	where := ""
+	for _, f := range SiteFrames(th.pending.Site) {
+		if len(f) > 6 && f[:6] != "verif/" {
+			where = " in " + f
+			break
+		}
+	}
+	return fmt.Sprintf("t%d(%s) at %v on %T%s", th.ID, th.Name, th.pending.Kind, th.pending.Obj, where)
 }
 
 // schedule: t holds the token and has arrived at a point (or is exiting); pick who runs next.
@@ -458,7 +471,7 @@ func (e *Execution) schedule(t *Thread, exiting bool) {
 			e.threads[id].blockedBy = nil
 		}
 	}
-	if e.cfg.Dump == nil && anyEn {
+	if e.cfg.Dump == nil && anyEn && e.sinceProgress > spinQuietLimit {
 		// no dump available (whole-interpreter drivers): livelock = every enabled thread has been going
 		// round a loop of at most three sites for a long time
 		all := true
